@@ -1116,3 +1116,662 @@ Proof.
   intros a [m|]; cbn [xlt]; [|split; auto].
   destruct (Qlt_le_dec a m); split; intro H; try reflexivity; try assumption; try discriminate. lra.
 Qed.
+
+(* ------------------------------------------------------------------ *)
+(* counts track statuses                                               *)
+Section Counts.
+Variable g : graph.
+Hypothesis Hnd : NoDup (gnodes g).
+
+Definition cnt_list (l : list node) (st : node -> N) (x : N) : Z :=
+  Z.of_nat (length (filter (fun u => N.eqb (st u) x) l)).
+
+Lemma cnt_list_notin : forall l st m new x, ~ In m l ->
+  cnt_list l (fupdN st m new) x = cnt_list l st x.
+Proof.
+  intros l st m new x H. unfold cnt_list. f_equal. f_equal. apply filter_ext_in.
+  intros a Ha. rewrite fupdN_other; [reflexivity|]. intro E. subst a. contradiction.
+Qed.
+
+Lemma cnt_list_upd : forall l st m new x, NoDup l -> In m l ->
+  cnt_list l (fupdN st m new) x =
+  (cnt_list l st x - b2z (N.eqb x (st m)) + b2z (N.eqb x new))%Z.
+Proof.
+  induction l as [|a l IH]; intros st m new x Hn Hin; [contradiction|].
+  apply NoDup_cons_iff in Hn. destruct Hn as [Ha Hn].
+  destruct (N.eq_dec a m) as [E|E].
+  - subst a. unfold cnt_list. cbn [filter]. rewrite fupdN_same.
+    fold (cnt_list l (fupdN st m new) x). 
+    assert (Hrest : length (filter (fun u => N.eqb (fupdN st m new u) x) l) =
+                    length (filter (fun u => N.eqb (st u) x) l)).
+    { f_equal. apply filter_ext_in. intros b Hb. rewrite fupdN_other; [reflexivity|].
+      intro E. subst b. contradiction. }
+    rewrite (N.eqb_sym x (st m)), (N.eqb_sym x new).
+    destruct (N.eqb new x); destruct (N.eqb (st m) x); cbn [length b2z]; rewrite Hrest; lia.
+  - destruct Hin as [Hin|Hin]; [contradiction|].
+    specialize (IH st m new x Hn Hin). unfold cnt_list in *. cbn [filter].
+    rewrite (fupdN_other st m new a E).
+    destruct (N.eqb (st a) x); cbn [length]; lia.
+Qed.
+
+Lemma count_status_upd : forall st m new x, In m (gnodes g) ->
+  count_status g (fupdN st m new) x =
+  (count_status g st x - b2z (N.eqb x (st m)) + b2z (N.eqb x new))%Z.
+Proof. intros. apply (cnt_list_upd (gnodes g)); assumption. Qed.
+
+Lemma combine_map_r : forall (A B C : Type) (f : A -> B) (h : A * B -> C) (l : list A),
+  map h (combine l (map f l)) = map (fun x => h (x, f x)) l.
+Proof. induction l as [|a l IH]; [reflexivity|]. cbn [map combine]. rewrite IH. reflexivity. Qed.
+
+(* the row appended by an event is the count of every return status in the new statuses *)
+Lemma next_counts_track : forall rstat st m new, In m (gnodes g) ->
+  next_counts rstat (map (count_status g st) rstat) (st m) new =
+  map (count_status g (fupdN st m new)) rstat.
+Proof.
+  intros rstat st m new Hm. unfold next_counts. rewrite combine_map_r. apply map_ext.
+  intro x. cbn [fst snd]. rewrite (count_status_upd st m new x Hm). reflexivity.
+Qed.
+End Counts.
+
+(* rows invariant: the newest row holds the current count of every return status *)
+Definition RInv (g : graph) (rstat : list N) (s : sst) : Prop :=
+  hd_counts (s_rows s) = map (count_status g (s_stat s)) rstat.
+
+Lemma fire_counts : forall g (Hg : wfg2 g) rstat full t s i a sl s',
+  SInv g s -> RInv g rstat s -> nth_error (s_sp s ++ s_in s) i = Some sl -> sabs sl a <> None ->
+  fire g rstat full t s (i, a) = Ok s' ->
+  RInv g rstat s' /\ exists c, s_rows s' = (t, c) :: s_rows s.
+Proof.
+  intros g Hg rstat full t s i a sl s' HI HR Hnth Ha Hfire.
+  unfold fire in Hfire. cbn [fst snd] in Hfire. rewrite Hnth in Hfire. revert Hfire.
+  destruct (Nat.ltb_spec i (length (s_sp s))) as [Hi|Hi]; intro Hfire.
+  - pose proof (nth_error_app_l _ _ _ _ Hi Hnth) as Hin.
+    pose proof (si_sp g s HI) as HF. rewrite Forall_forall in HF. destruct (HF sl Hin) as [_ [_ Hag]].
+    destruct (sp_spec_some g (s_stat s) sl a (oQeq_not_none _ _ (Hag a) Ha)) as [u [Ea [Hu Hfrom]]].
+    subst a.
+    destruct (apply_spont_ok g Hg rstat full t (sl_tr sl) u s HI Hu Hfrom) as [s1 [E [_ [Hst [Hrows _]]]]].
+    pose proof (eq_trans (eq_sym E) Hfire) as X. injection X as X. subst s1. split; [|eexists; exact Hrows].
+    unfold RInv. rewrite Hrows, Hst. cbn [hd_counts]. rewrite HR.
+    apply (next_counts_track g (g_nodup g Hg)). exact Hu.
+  - pose proof (nth_error_app_r _ _ _ _ Hi Hnth) as Hin.
+    pose proof (si_in g s HI) as HF. rewrite Forall_forall in HF. destruct (HF sl Hin) as [_ [_ Hag]].
+    destruct (in_spec_some g (s_stat s) sl a (oQeq_not_none _ _ (Hag a) Ha)) as [u [v [Ea [Hu [Hv Hfrom]]]]].
+    subst a.
+    assert (Hvn : In v (gnodes g)) by (apply (g_adj_in g Hg u v Hu Hv)).
+    destruct (apply_induced_ok g Hg rstat full t (sl_tr sl) u v s HI Hvn Hfrom) as [s1 [E [_ [Hst [Hrows _]]]]].
+    pose proof (eq_trans (eq_sym E) Hfire) as X. injection X as X. subst s1. split; [|eexists; exact Hrows].
+    unfold RInv. rewrite Hrows, Hst. cbn [hd_counts]. rewrite HR.
+    apply (next_counts_track g (g_nodup g Hg)). exact Hvn.
+Qed.
+
+(* ------------------------------------------------------------------ *)
+(* set-up and initial filling establish the invariant                   *)
+
+Lemma Forall2_same_frame_refl : forall l, Forall2 same_frame l l.
+Proof. induction l; constructor; [apply same_frame_refl|assumption]. Qed.
+Lemma Forall2_same_frame_trans : forall a b c,
+  Forall2 same_frame a b -> Forall2 same_frame b c -> Forall2 same_frame a c.
+Proof.
+  intros a b c H. revert c. induction H as [|x y l l' Hxy _ IH]; intros c Hc; inversion Hc; subst.
+  - constructor.
+  - constructor; [eapply same_frame_trans; eassumption|apply IH; assumption].
+Qed.
+
+(* a fold over a duplicate-free list whose body maps a per-slot step over all slots *)
+Lemma lfold_agree : forall (step : node -> slot -> result slot) (P : list node -> slot -> Prop) (l : list node),
+  (forall d x sl, In x l -> ~ In x d -> P d sl ->
+      exists sl', step x sl = Ok sl' /\ same_frame sl sl' /\ P (x :: d) sl') ->
+  NoDup l -> forall d sls, (forall x, In x l -> ~ In x d) -> Forall (P d) sls ->
+  exists sls', fold_left (fun acc v => rbind acc (rmap (step v))) l (Ok sls) = Ok sls' /\
+               Forall2 same_frame sls sls' /\ Forall (P (rev l ++ d)) sls'.
+Proof.
+  intros step P l. induction l as [|x l IH]; intros Hstep Hnd d sls Hd HP.
+  - exists sls. cbn [fold_left rev app]. split; [reflexivity|]. split; [apply Forall2_same_frame_refl|exact HP].
+  - apply NoDup_cons_iff in Hnd. destruct Hnd as [Hx Hnd'].
+    destruct (rmap_Forall2 (step x) (P d) (evolved (P (x :: d))) sls) as [s1 [E1 H1]].
+    { intros sl Hsl. destruct (Hstep d x sl (or_introl eq_refl) (Hd x (or_introl eq_refl)) Hsl)
+        as [sl' [E [Hf HP']]]. exists sl'. split; [exact E|split; assumption]. }
+    { exact HP. }
+    cbn [fold_left rbind]. rewrite E1.
+    destruct (IH (fun d0 x0 sl0 Hin => Hstep d0 x0 sl0 (or_intror Hin)) Hnd' (x :: d) s1)
+      as [s2 [E2 [F2 H2]]].
+    + intros y Hy [E|Hyd]; [subst y; contradiction|]. apply (Hd y (or_intror Hy)). exact Hyd.
+    + eapply Forall2_Forall_r; [exact H1|intros a b [_ H]; exact H].
+    + exists s2. split; [exact E2|]. split.
+      * eapply Forall2_same_frame_trans; [|exact F2].
+        clear -H1. induction H1 as [|a b l1 l2 [H _] _ IH]; constructor; assumption.
+      * cbn [rev]. rewrite <- app_assoc. cbn [app]. exact H2.
+Qed.
+
+Section Init.
+Variable g : graph.
+Hypothesis Hg : wfg2 g.
+Variable st : node -> N.
+
+Definition SPd (done : list node) (sl : slot) (k : key) : option Q :=
+  match k with [u] => if mem u done then sp_spec g st sl k else None | _ => None end.
+Definition INd (done : list node) (sl : slot) (k : key) : option Q :=
+  match k with [u; v] => if mem u done then in_spec g st sl k else None | _ => None end.
+Definition INu (done : list node) (u : node) (d : list node) (sl : slot) (k : key) : option Q :=
+  match k with
+  | [a; b] => if N.eqb a u then (if mem b d then in_spec g st sl k else None) else INd done sl k
+  | _ => None
+  end.
+
+Definition SPp (done : list node) (sl : slot) : Prop :=
+  slok sl /\ sp_full g sl /\ forall k, oQeq (sabs sl k) (SPd done sl k).
+Definition INp (done : list node) (sl : slot) : Prop :=
+  slok sl /\ in_full g sl /\ forall k, oQeq (sabs sl k) (INd done sl k).
+Definition INq (done : list node) (u : node) (d : list node) (sl : slot) : Prop :=
+  slok sl /\ in_full g sl /\ forall k, oQeq (sabs sl k) (INu done u d sl k).
+
+Lemma init_sp_step : forall done u sl, In u (gnodes g) -> ~ In u done -> SPp done sl ->
+  exists sl', when (from_is sl [st u]) (add_actor (knode u)) sl = Ok sl' /\ same_frame sl sl' /\
+              SPp (u :: done) sl'.
+Proof.
+  intros done u sl Hu Hnd [Hok [Hfull Hag]].
+  assert (Hn : sabs sl (knode u) = None).
+  { apply oQeq_none_l. eapply oQeq_trans; [apply Hag|]. unfold knode. cbn [SPd].
+    replace (mem u done) with false by (symmetry; apply mem_false; exact Hnd). exact I. }
+  destruct (when_add_ok (from_is sl [st u]) (knode u) sl Hok (Hfull u Hu) (fun _ => Hn))
+    as [sl' [E [Hok' [Hf [Hk Ho]]]]].
+  exists sl'. split; [exact E|]. split; [exact Hf|]. split; [exact Hok'|].
+  split; [apply (sp_full_frame g _ _ Hf Hfull)|].
+  intro k. destruct (keqb_spec k (knode u)) as [Ek|Ek].
+  - subst k. eapply oQeq_trans; [exact Hk|]. rewrite Hn. unfold knode. cbn [SPd mem existsb].
+    rewrite N.eqb_refl. cbn [orb]. rewrite (sp_spec_frame g _ _ _ [u] Hf). cbn [sp_spec].
+    rewrite (mem_true_In _ _ Hu). cbn [andb]. destruct (from_is sl [st u]); apply oQeq_refl.
+  - eapply oQeq_trans; [apply Ho; exact Ek|]. eapply oQeq_trans; [apply Hag|]. apply oQeq_of_eq.
+    destruct k as [|a [|b r]]; cbn [SPd]; try reflexivity.
+    cbn [mem existsb]. destruct (N.eqb_spec a u) as [Ea|Ea]; [subst a; exfalso; apply Ek; reflexivity|].
+    cbn [orb]. rewrite (sp_spec_frame g _ _ _ [a] Hf). reflexivity.
+Qed.
+
+Lemma init_in_step : forall done u, In u (gnodes g) ->
+  forall d v sl, In v (gadj g u) -> ~ In v d -> INq done u d sl ->
+  exists sl', when (from_is sl [st u; st v]) (add_actor (kpair u v)) sl = Ok sl' /\ same_frame sl sl' /\
+              INq done u (v :: d) sl'.
+Proof.
+  intros done u Hu d v sl Hv Hvd [Hok [Hfull Hag]].
+  assert (Hn : sabs sl (kpair u v) = None).
+  { apply oQeq_none_l. eapply oQeq_trans; [apply Hag|]. unfold kpair. cbn [INu].
+    rewrite N.eqb_refl. replace (mem v d) with false by (symmetry; apply mem_false; exact Hvd). exact I. }
+  destruct (when_add_ok (from_is sl [st u; st v]) (kpair u v) sl Hok (Hfull u v Hu Hv) (fun _ => Hn))
+    as [sl' [E [Hok' [Hf [Hk Ho]]]]].
+  exists sl'. split; [exact E|]. split; [exact Hf|]. split; [exact Hok'|].
+  split; [apply (in_full_frame g _ _ Hf Hfull)|].
+  intro k. destruct (keqb_spec k (kpair u v)) as [Ek|Ek].
+  - subst k. eapply oQeq_trans; [exact Hk|]. rewrite Hn. unfold kpair. cbn [INu mem existsb].
+    rewrite !N.eqb_refl. cbn [orb]. rewrite (in_spec_frame g _ _ _ [u; v] Hf). cbn [in_spec].
+    rewrite (mem_true_In _ _ Hu), (mem_true_In _ _ Hv). cbn [andb].
+    destruct (from_is sl [st u; st v]); apply oQeq_refl.
+  - eapply oQeq_trans; [apply Ho; exact Ek|]. eapply oQeq_trans; [apply Hag|]. apply oQeq_of_eq.
+    destruct k as [|a [|b [|c r]]]; cbn [INu]; try reflexivity.
+    destruct (N.eqb_spec a u) as [Ea|Ea].
+    + subst a. cbn [mem existsb]. destruct (N.eqb_spec b v) as [Eb|Eb]; [subst b; exfalso; apply Ek; reflexivity|].
+      cbn [orb]. rewrite (in_spec_frame g _ _ _ [u; b] Hf). reflexivity.
+    + cbn [INd]. rewrite (in_spec_frame g _ _ _ [a; b] Hf). reflexivity.
+Qed.
+
+Lemma INq_start : forall done u sl, ~ In u done -> INp done sl -> INq done u [] sl.
+Proof.
+  intros done u sl Hnd [Hok [Hfull Hag]]. split; [exact Hok|]. split; [exact Hfull|].
+  intro k. eapply oQeq_trans; [apply Hag|]. apply oQeq_of_eq.
+  destruct k as [|a [|b [|c r]]]; cbn [INu INd]; try reflexivity.
+  destruct (N.eqb_spec a u) as [Ea|Ea]; [|reflexivity]. subst a. cbn [mem existsb].
+  replace (mem u done) with false by (symmetry; apply mem_false; exact Hnd). reflexivity.
+Qed.
+
+Lemma INq_end : forall done u sl, In u (gnodes g) -> INq done u (rev (gadj g u) ++ []) sl -> INp (u :: done) sl.
+Proof.
+  intros done u sl Hu [Hok [Hfull Hag]]. split; [exact Hok|]. split; [exact Hfull|].
+  intro k. eapply oQeq_trans; [apply Hag|]. apply oQeq_of_eq.
+  destruct k as [|a [|b [|c r]]]; cbn [INu INd]; try reflexivity.
+  rewrite app_nil_r, mem_rev. cbn [mem existsb].
+  destruct (N.eqb_spec a u) as [Ea|Ea]; cbn [orb]; [|reflexivity]. subst a.
+  destruct (mem b (gadj g u)) eqn:Eb; [reflexivity|]. cbn [in_spec]. rewrite Eb, andb_false_r. reflexivity.
+Qed.
+
+Lemma init_node_ok : forall done u sp inn, In u (gnodes g) -> ~ In u done ->
+  Forall (SPp done) sp -> Forall (INp done) inn ->
+  exists sp' inn', init_node g st u (sp, inn) = Ok (sp', inn') /\
+    Forall2 same_frame sp sp' /\ Forall2 same_frame inn inn' /\
+    Forall (SPp (u :: done)) sp' /\ Forall (INp (u :: done)) inn'.
+Proof.
+  intros done u sp inn Hu Hnd Hsp Hin. unfold init_node. cbn [fst snd].
+  destruct (rmap_Forall2 (fun sl => when (from_is sl [st u]) (add_actor (knode u)) sl) (SPp done)
+              (evolved (SPp (u :: done))) sp) as [sp' [Esp Hsp']].
+  { intros sl Hsl. destruct (init_sp_step done u sl Hu Hnd Hsl) as [sl' [E [Hf HP]]].
+    exists sl'. split; [exact E|split; assumption]. }
+  { exact Hsp. }
+  rewrite Esp, rbind_ok.
+  destruct (lfold_agree (fun v sl => when (from_is sl [st u; st v]) (add_actor (kpair u v)) sl)
+              (INq done u) (gadj g u) (init_in_step done u Hu) (g_adj_nodup g Hg u Hu) [] inn)
+    as [inn' [Ein [Fin Hin']]].
+  { intros x _ H. exact H. }
+  { eapply Forall_impl; [|exact Hin]. intros sl Hsl. apply INq_start; assumption. }
+  match goal with |- context [fold_left ?f (gadj g u) (Ok inn)] =>
+    assert (Hfold : fold_left f (gadj g u) (Ok inn) = Ok inn') by (rewrite <- Ein; reflexivity) end.
+  rewrite Hfold, rbind_ok. exists sp', inn'. split; [reflexivity|]. split; [|split; [exact Fin|split]].
+  - clear -Hsp'. induction Hsp' as [|a b l1 l2 [H _] _ IH]; constructor; assumption.
+  - eapply Forall2_Forall_r; [exact Hsp'|intros a b [_ H]; exact H].
+  - eapply Forall_impl; [|exact Hin']. intros sl Hsl. apply INq_end; assumption.
+Qed.
+
+Lemma init_fold_ok : forall l done sp inn, NoDup l ->
+  (forall x, In x l -> In x (gnodes g) /\ ~ In x done) ->
+  Forall (SPp done) sp -> Forall (INp done) inn ->
+  exists sp' inn', fold_left (fun acc u => rbind acc (init_node g st u)) l (Ok (sp, inn)) = Ok (sp', inn') /\
+    Forall2 same_frame sp sp' /\ Forall2 same_frame inn inn' /\
+    Forall (SPp (rev l ++ done)) sp' /\ Forall (INp (rev l ++ done)) inn'.
+Proof.
+  induction l as [|u l IH]; intros done sp inn Hnd Hl Hsp Hin.
+  - exists sp, inn. cbn [fold_left rev app]. split; [reflexivity|].
+    split; [apply Forall2_same_frame_refl|]. split; [apply Forall2_same_frame_refl|]. split; assumption.
+  - apply NoDup_cons_iff in Hnd. destruct Hnd as [Hu Hnd'].
+    destruct (Hl u (or_introl eq_refl)) as [Hun Hud].
+    destruct (init_node_ok done u sp inn Hun Hud Hsp Hin) as [sp1 [in1 [E1 [F1 [G1 [Hsp1 Hin1]]]]]].
+    cbn [fold_left rbind]. rewrite E1.
+    destruct (IH (u :: done) sp1 in1 Hnd') as [sp2 [in2 [E2 [F2 [G2 [Hsp2 Hin2]]]]]].
+    + intros x Hx. destruct (Hl x (or_intror Hx)) as [H1 H2]. split; [exact H1|].
+      intros [E|H]; [subst x; contradiction|contradiction].
+    + exact Hsp1.
+    + exact Hin1.
+    + exists sp2, in2. split; [exact E2|].
+      split; [eapply Forall2_same_frame_trans; eassumption|].
+      split; [eapply Forall2_same_frame_trans; eassumption|].
+      cbn [rev]. rewrite <- app_assoc. cbn [app]. split; assumption.
+Qed.
+
+Lemma SPp_all : forall sl, SPp (rev (gnodes g) ++ []) sl -> sp_slot_ok g st sl.
+Proof.
+  intros sl [Hok [Hfull Hag]]. split; [exact Hok|]. split; [exact Hfull|].
+  intro k. eapply oQeq_trans; [apply Hag|]. apply oQeq_of_eq.
+  destruct k as [|a [|b r]]; cbn [SPd]; try reflexivity.
+  rewrite app_nil_r, mem_rev. destruct (mem a (gnodes g)) eqn:E; [reflexivity|].
+  cbn [sp_spec]. rewrite E. reflexivity.
+Qed.
+Lemma INp_all : forall sl, INp (rev (gnodes g) ++ []) sl -> in_slot_ok g st sl.
+Proof.
+  intros sl [Hok [Hfull Hag]]. split; [exact Hok|]. split; [exact Hfull|].
+  intro k. eapply oQeq_trans; [apply Hag|]. apply oQeq_of_eq.
+  destruct k as [|a [|b [|c r]]]; cbn [INd]; try reflexivity.
+  rewrite app_nil_r, mem_rev. destruct (mem a (gnodes g)) eqn:E; [reflexivity|].
+  cbn [in_spec]. rewrite E. reflexivity.
+Qed.
+
+(* init_all on freshly set-up (empty) slots *)
+Lemma init_all_ok : forall sp inn,
+  Forall (SPp []) sp -> Forall (INp []) inn ->
+  exists sp' inn', init_all g st sp inn = Ok (sp', inn') /\
+    Forall2 same_frame sp sp' /\ Forall2 same_frame inn inn' /\
+    Forall (sp_slot_ok g st) sp' /\ Forall (in_slot_ok g st) inn'.
+Proof.
+  intros sp inn Hsp Hin. unfold init_all.
+  destruct (init_fold_ok (gnodes g) [] sp inn (g_nodup g Hg)) as [sp' [inn' [E [F [G [H1 H2]]]]]].
+  - intros x Hx. split; [exact Hx|intros []].
+  - exact Hsp.
+  - exact Hin.
+  - exists sp', inn'. split; [exact E|]. split; [exact F|]. split; [exact G|].
+    split; (eapply Forall_impl; [|eassumption]); [apply SPp_all|apply INp_all].
+Qed.
+
+End Init.
+
+(* ------------------------------------------------------------------ *)
+(* set-up: well-formed specifications are accepted, malformed ones rejected *)
+
+Lemma rmap_gen : forall (A B : Type) (f : A -> result B) (P : A -> Prop) (R : A -> B -> Prop) l,
+  (forall x, P x -> exists y, f x = Ok y /\ R x y) -> Forall P l ->
+  exists l', rmap f l = Ok l' /\ Forall2 R l l'.
+Proof.
+  intros A B f P R l Hf. induction l as [|x l IH]; intro HP.
+  - exists []. split; [reflexivity|constructor].
+  - inversion HP as [|x' l' Hx Hl]; subst x' l'.
+    destruct (Hf x Hx) as [y [Ey Ry]]. destruct (IH Hl) as [l' [El Rl]].
+    exists (y :: l'). cbn [rmap]. rewrite Ey, rbind_ok, El, rbind_ok. split; [reflexivity|].
+    constructor; assumption.
+Qed.
+
+Lemma rmap_err : forall (A B : Type) (f : A -> result B) l e,
+  rmap f l = Err e -> exists x, In x l /\ f x = Err e.
+Proof.
+  intros A B f l e. induction l as [|x l IH]; cbn [rmap]; [discriminate|].
+  destruct (f x) as [y|e'] eqn:Ex; cbn [rbind].
+  - destruct (rmap f l) as [ys|e''] eqn:El; cbn [rbind]; [discriminate|].
+    intro H. injection H as H. subst e''. destruct (IH eq_refl) as [z [Hz Ez]].
+    exists z. split; [right; exact Hz|exact Ez].
+  - intro H. injection H as H. subst e'. exists x. split; [left; reflexivity|exact Ex].
+Qed.
+
+Lemma rmap_ok_all : forall (A B : Type) (f : A -> result B) l l',
+  rmap f l = Ok l' -> forall x, In x l -> exists y, f x = Ok y.
+Proof.
+  intros A B f l. induction l as [|a l IH]; intros l' H x Hx; [contradiction|].
+  cbn [rmap] in H. destruct (f a) as [y|e] eqn:Ea; cbn [rbind] in H; [|discriminate].
+  destruct (rmap f l) as [ys|e] eqn:El; cbn [rbind] in H; [|discriminate].
+  destruct Hx as [E|Hx]; [subst a; exists y; exact Ea|apply (IH ys eq_refl x Hx)].
+Qed.
+
+Lemma sort_trans_perm : forall b l, Permutation (sort_trans b l) l.
+Proof.
+  intros [|] l; unfold sort_trans; [|apply Permutation_refl].
+  eapply Permutation_trans; [apply Permutation_map; apply ksort_perm|].
+  rewrite map_map. cbn [snd]. rewrite map_id. apply Permutation_refl.
+Qed.
+
+Lemma tlook_map_keys : forall (f : key -> Q) ks k, In k ks ->
+  tlook (map (fun k => (k, f k)) ks) k = Some (f k).
+Proof.
+  intros f ks k. induction ks as [|a ks IH]; intro H; [contradiction|]. cbn [map tlook].
+  destruct (keqb_spec k a) as [E|E]; [subst a; reflexivity|].
+  destruct H as [H|H]; [exfalso; apply E; symmetry; exact H|apply IH; exact H].
+Qed.
+
+Section Setup.
+Variable g : graph.
+Hypothesis Hg : wfg2 g.
+
+(* get_weight of an induced transition with a weight label: the edge attribute
+   dictionary, plus the reversed orientation when G is undirected *)
+Definition lab_tab (t : tab) : tab :=
+  if gdirected g then t else t ++ map (fun kw => (kswap (fst kw), snd kw)) t.
+
+(* well-formed specification edges: one weight source at most, weights defined and >= 0
+   on every node resp. every ordered adjacent pair, first component kept *)
+Definition sp_tr_ok (tr : trans) : Prop :=
+  match tr_w tr with
+  | WNone => True
+  | WLabel t => forall u, In u (gnodes g) -> exists w, tlook t [u] = Some w /\ 0 <= w
+  | WFun f => forall u, In u (gnodes g) -> 0 <= f [u]
+  | WBoth => False
+  end.
+Definition in_tr_ok (tr : trans) : Prop :=
+  N.eqb (hd_status (tr_from tr)) (hd_status (tr_to tr)) = true /\
+  match tr_w tr with
+  | WNone => True
+  | WLabel t => forall u v, In u (gnodes g) -> In v (gadj g u) ->
+                  exists w, tlook (lab_tab t) [u; v] = Some w /\ 0 <= w
+  | WFun f => forall u v, In u (gnodes g) -> In v (gadj g u) -> 0 <= f [u; v]
+  | WBoth => False
+  end.
+
+(* the weight the specification gives to an actor *)
+Definition spec_weight (induced : bool) (tr : trans) (k : key) : Q :=
+  match tr_w tr with
+  | WNone => 1
+  | WLabel t => match tlook (if induced then lab_tab t else t) k with Some w => w | None => 0 end
+  | WFun f => f k
+  | WBoth => 0
+  end.
+
+Lemma in_gpairs : forall u v, In u (gnodes g) -> In v (gadj g u) -> In [u; v] (gpairs g).
+Proof.
+  intros u v Hu Hv. unfold gpairs. apply in_flat_map. exists u. split; [exact Hu|].
+  apply in_map_iff. exists v. split; [reflexivity|exact Hv].
+Qed.
+
+Lemma empty_slok : forall tr w gw, w = (match gw with Some _ => true | None => false end) ->
+  slok (mkSlot tr (kl_empty w) gw).
+Proof.
+  intros tr w gw E. constructor; cbn [sl_pot sl_gw has_gw]; [apply kl_empty_inv|].
+  subst w. reflexivity.
+Qed.
+
+Lemma setup_spont_ok : forall st tr, sp_tr_ok tr ->
+  exists sl, setup_spont g tr = Ok sl /\ sl_tr sl = tr /\ SPp g st [] sl /\
+             forall u, In u (gnodes g) -> wgt sl [u] = spec_weight false tr [u].
+Proof.
+  intros st tr H. unfold setup_spont, sp_tr_ok, spec_weight in *.
+  destruct (tr_w tr) as [|t|f|] eqn:Ew; [| | |contradiction]; eexists; (split; [reflexivity|]);
+    (split; [reflexivity|]); (split; [split; [apply empty_slok; reflexivity|split]|]).
+  - intros u Hu. exact I.
+  - intro k. unfold sabs. cbn [sl_pot]. rewrite kl_empty_abs. destruct k as [|a [|b r]]; exact I.
+  - intros u Hu. reflexivity.
+  - intros u Hu. unfold gw_ok. cbn [sl_gw]. apply H. exact Hu.
+  - intro k. unfold sabs. cbn [sl_pot]. rewrite kl_empty_abs. destruct k as [|a [|b r]]; exact I.
+  - intros u Hu. reflexivity.
+  - intros u Hu. unfold gw_ok. cbn [sl_gw].
+    exists (f [u]). split; [|apply H; exact Hu].
+    rewrite <- (map_map knode (fun k => (k, f k))). apply tlook_map_keys.
+    apply in_map_iff. exists u. split; [reflexivity|exact Hu].
+  - intro k. unfold sabs. cbn [sl_pot]. rewrite kl_empty_abs. destruct k as [|a [|b r]]; exact I.
+  - intros u Hu. unfold wgt. cbn [sl_gw].
+    rewrite <- (map_map knode (fun k => (k, f k))). rewrite tlook_map_keys; [reflexivity|].
+    apply in_map_iff. exists u. split; [reflexivity|exact Hu].
+Qed.
+
+Lemma setup_induced_ok : forall st tr, in_tr_ok tr ->
+  exists sl, setup_induced g tr = Ok sl /\ sl_tr sl = tr /\ INp g st [] sl /\
+             forall u v, In u (gnodes g) -> In v (gadj g u) -> wgt sl [u; v] = spec_weight true tr [u; v].
+Proof.
+  intros st tr [H1 H]. unfold setup_induced, spec_weight in *. rewrite H1. cbn [negb].
+  destruct (tr_w tr) as [|t|f|] eqn:Ew; [| | |contradiction]; eexists; (split; [reflexivity|]);
+    (split; [reflexivity|]); (split; [split; [apply empty_slok; reflexivity|split]|]).
+  - intros u v Hu Hv. exact I.
+  - intro k. unfold sabs. cbn [sl_pot]. rewrite kl_empty_abs. destruct k as [|a [|b [|c r]]]; exact I.
+  - intros u v Hu Hv. reflexivity.
+  - intros u v Hu Hv. unfold gw_ok. cbn [sl_gw]. apply (H u v Hu Hv).
+  - intro k. unfold sabs. cbn [sl_pot]. rewrite kl_empty_abs. destruct k as [|a [|b [|c r]]]; exact I.
+  - intros u v Hu Hv. reflexivity.
+  - intros u v Hu Hv. unfold gw_ok. cbn [sl_gw].
+    exists (f [u; v]). split; [|apply H; assumption].
+    apply tlook_map_keys. apply in_gpairs; assumption.
+  - intro k. unfold sabs. cbn [sl_pot]. rewrite kl_empty_abs. destruct k as [|a [|b [|c r]]]; exact I.
+  - intros u v Hu Hv. unfold wgt. cbn [sl_gw]. rewrite tlook_map_keys; [reflexivity|].
+    apply in_gpairs; assumption.
+Qed.
+
+Lemma Forall2_map_eq : forall (l : list trans) (l' : list slot),
+  Forall2 (fun tr sl => sl_tr sl = tr) l l' -> map sl_tr l' = l.
+Proof. intros l l' H. induction H as [|x y l l' Hxy _ IH]; [reflexivity|]. cbn [map]. rewrite Hxy, IH. reflexivity. Qed.
+
+Lemma frames_back : forall (R : trans -> slot -> Prop) l l0 l1,
+  Forall2 R l l0 -> Forall2 same_frame l0 l1 ->
+  forall sl, In sl l1 -> exists tr sl0, R tr sl0 /\ same_frame sl0 sl.
+Proof.
+  intros R l l0 l1 H. revert l1. induction H as [|x y l l0 Hxy _ IH]; intros l1 F sl Hsl;
+    inversion F as [|a b la lb Hab Hrest]; subst; [contradiction|].
+  destruct Hsl as [E|Hsl].
+  - subst sl. exists x, y. split; assumption.
+  - apply (IH lb Hrest sl Hsl).
+Qed.
+
+(* simple_inv, initial state: a well-formed specification is accepted, and the loop starts
+   in a state that satisfies the bookkeeping invariant, with the transitions in the cascade's
+   order and the specification's weights *)
+Lemma simple_setup_inv : forall sortable spont induced ic rstat tmin tmax full fuel,
+  Forall sp_tr_ok spont -> Forall in_tr_ok induced ->
+  exists sp inn,
+    let s0 := mkS ic sp inn [(tmin, map (count_status g ic) rstat)] [] [] in
+    simple g sortable spont induced ic rstat tmin tmax full fuel =
+      loop g ic rstat tmin tmax full fuel tmin s0 /\
+    SInv g s0 /\ RInv g rstat s0 /\
+    map sl_tr sp = sort_trans sortable spont /\ map sl_tr inn = sort_trans sortable induced /\
+    (forall sl u, In sl sp -> In u (gnodes g) -> wgt sl [u] = spec_weight false (sl_tr sl) [u]) /\
+    (forall sl u v, In sl inn -> In u (gnodes g) -> In v (gadj g u) ->
+        wgt sl [u; v] = spec_weight true (sl_tr sl) [u; v]).
+Proof.
+  intros sortable spont induced ic rstat tmin tmax full fuel Hsp Hin.
+  assert (Hsp' : Forall sp_tr_ok (sort_trans sortable spont)).
+  { rewrite Forall_forall in *. intros x Hx. apply Hsp.
+    apply (Permutation_in _ (sort_trans_perm sortable spont)). exact Hx. }
+  assert (Hin' : Forall in_tr_ok (sort_trans sortable induced)).
+  { rewrite Forall_forall in *. intros x Hx. apply Hin.
+    apply (Permutation_in _ (sort_trans_perm sortable induced)). exact Hx. }
+  destruct (rmap_gen _ _ (setup_spont g) sp_tr_ok
+              (fun tr sl => sl_tr sl = tr /\ SPp g ic [] sl /\
+                 forall u, In u (gnodes g) -> wgt sl [u] = spec_weight false tr [u])
+              (sort_trans sortable spont)) as [sp0 [Esp Fsp]].
+  { intros tr Htr. destruct (setup_spont_ok ic tr Htr) as [sl [E H]]. exists sl. split; [exact E|exact H]. }
+  { exact Hsp'. }
+  destruct (rmap_gen _ _ (setup_induced g) in_tr_ok
+              (fun tr sl => sl_tr sl = tr /\ INp g ic [] sl /\
+                 forall u v, In u (gnodes g) -> In v (gadj g u) -> wgt sl [u; v] = spec_weight true tr [u; v])
+              (sort_trans sortable induced)) as [in0 [Ein Fin]].
+  { intros tr Htr. destruct (setup_induced_ok ic tr Htr) as [sl [E H]]. exists sl. split; [exact E|exact H]. }
+  { exact Hin'. }
+  destruct (init_all_ok g Hg ic sp0 in0) as [sp [inn [Einit [F1 [F2 [H1 H2]]]]]].
+  { clear -Fsp. induction Fsp as [|x y l l' [_ [H _]] _ IH]; constructor; assumption. }
+  { clear -Fin. induction Fin as [|x y l l' [_ [H _]] _ IH]; constructor; assumption. }
+  exists sp, inn. cbn zeta. split; [|split; [|split; [|split; [|split; [|split]]]]].
+  - unfold simple. rewrite Esp, rbind_ok, Ein, rbind_ok, Einit. reflexivity.
+  - constructor; cbn [s_stat s_sp s_in]; assumption.
+  - unfold RInv. reflexivity.
+  - rewrite (Forall2_frames _ _ F1). apply Forall2_map_eq.
+    clear -Fsp. induction Fsp as [|x y l l' [H _] _ IH]; constructor; assumption.
+  - rewrite (Forall2_frames _ _ F2). apply Forall2_map_eq.
+    clear -Fin. induction Fin as [|x y l l' [H _] _ IH]; constructor; assumption.
+  - intros sl u Hsl Hu. destruct (frames_back _ _ _ _ Fsp F1 sl Hsl) as [tr [sl0 [[Hx [_ Hw]] Hf]]].
+    rewrite (same_frame_wgt _ _ _ Hf). destruct Hf as [Ht _]. rewrite Ht, Hx. apply Hw. exact Hu.
+  - intros sl u v Hsl Hu Hv. destruct (frames_back _ _ _ _ Fin F2 sl Hsl) as [tr [sl0 [[Hx [_ Hw]] Hf]]].
+    rewrite (same_frame_wgt _ _ _ Hf). destruct Hf as [Ht _]. rewrite Ht, Hx. apply Hw; assumption.
+Qed.
+
+(* malformed specifications: an induced transition that changes its first component, or
+   both weight_label and rate_function on one edge *)
+Definition sp_malformed (tr : trans) : Prop := tr_w tr = WBoth.
+Definition in_malformed (tr : trans) : Prop :=
+  N.eqb (hd_status (tr_from tr)) (hd_status (tr_to tr)) = false \/ tr_w tr = WBoth.
+
+Lemma setup_spont_err : forall tr e, setup_spont g tr = Err e -> e = EoNError /\ sp_malformed tr.
+Proof.
+  intros tr e. unfold setup_spont, sp_malformed. destruct (tr_w tr); try discriminate.
+  intro H. injection H as H. split; [symmetry; exact H|reflexivity].
+Qed.
+Lemma setup_induced_err : forall tr e, setup_induced g tr = Err e -> e = EoNError /\ in_malformed tr.
+Proof.
+  intros tr e. unfold setup_induced, in_malformed.
+  destruct (N.eqb (hd_status (tr_from tr)) (hd_status (tr_to tr))); cbn [negb].
+  - destruct (tr_w tr); try discriminate. intro H. injection H as H. split; [symmetry; exact H|right; reflexivity].
+  - intro H. injection H as H. split; [symmetry; exact H|left; reflexivity].
+Qed.
+Lemma setup_spont_malformed : forall tr, sp_malformed tr -> setup_spont g tr = Err EoNError.
+Proof. intros tr H. unfold setup_spont. rewrite H. reflexivity. Qed.
+Lemma setup_induced_malformed : forall tr, in_malformed tr -> setup_induced g tr = Err EoNError.
+Proof.
+  intros tr [H|H]; unfold setup_induced; [rewrite H; reflexivity|].
+  destruct (negb _); [reflexivity|]. rewrite H. reflexivity.
+Qed.
+
+(* EoNError at set-up iff the specification is malformed *)
+Lemma simple_malformed_rejected : forall sortable spont induced ic rstat tmin tmax full fuel,
+  (Exists sp_malformed spont \/ Exists in_malformed induced) ->
+  simple g sortable spont induced ic rstat tmin tmax full fuel = Fail EoNError.
+Proof.
+  intros sortable spont induced ic rstat tmin tmax full fuel H. unfold simple.
+  destruct (rmap (setup_spont g) (sort_trans sortable spont)) as [sp|e] eqn:Esp; cbn [rbind].
+  - destruct (rmap (setup_induced g) (sort_trans sortable induced)) as [inn|e] eqn:Ein; cbn [rbind].
+    + exfalso. destruct H as [H|H]; apply Exists_exists in H; destruct H as [tr [Htr Hm]].
+      * destruct (rmap_ok_all _ _ _ _ _ Esp tr) as [y Ey].
+        { apply (Permutation_in _ (Permutation_sym (sort_trans_perm sortable spont))). exact Htr. }
+        rewrite (setup_spont_malformed tr Hm) in Ey. discriminate.
+      * destruct (rmap_ok_all _ _ _ _ _ Ein tr) as [y Ey].
+        { apply (Permutation_in _ (Permutation_sym (sort_trans_perm sortable induced))). exact Htr. }
+        rewrite (setup_induced_malformed tr Hm) in Ey. discriminate.
+    + destruct (rmap_err _ _ _ _ _ Ein) as [tr [_ Etr]].
+      destruct (setup_induced_err tr e Etr) as [Ee _]. subst e. reflexivity.
+  - destruct (rmap_err _ _ _ _ _ Esp) as [tr [_ Etr]].
+    destruct (setup_spont_err tr e Etr) as [Ee _]. subst e. reflexivity.
+Qed.
+
+(* conversely: when set-up raises, it raises EoNError and the specification is malformed *)
+Lemma simple_setup_error_only_malformed : forall sortable spont induced e,
+  rbind (rmap (setup_spont g) (sort_trans sortable spont)) (fun sp =>
+  rbind (rmap (setup_induced g) (sort_trans sortable induced)) (fun inn => Ok (sp, inn))) = Err e ->
+  e = EoNError /\ (Exists sp_malformed spont \/ Exists in_malformed induced).
+Proof.
+  intros sortable spont induced e.
+  destruct (rmap (setup_spont g) (sort_trans sortable spont)) as [sp|e1] eqn:Esp; cbn [rbind].
+  - destruct (rmap (setup_induced g) (sort_trans sortable induced)) as [inn|e2] eqn:Ein; cbn [rbind]; [discriminate|].
+    intro H. injection H as H. subst e2. destruct (rmap_err _ _ _ _ _ Ein) as [tr [Htr Etr]].
+    destruct (setup_induced_err tr e Etr) as [Ee Hm]. split; [exact Ee|]. right.
+    apply Exists_exists. exists tr. split; [|exact Hm].
+    apply (Permutation_in _ (sort_trans_perm sortable induced)). exact Htr.
+  - intro H. injection H as H. subst e1. destruct (rmap_err _ _ _ _ _ Esp) as [tr [Htr Etr]].
+    destruct (setup_spont_err tr e Etr) as [Ee Hm]. split; [exact Ee|]. left.
+    apply Exists_exists. exists tr. split; [|exact Hm].
+    apply (Permutation_in _ (sort_trans_perm sortable spont)). exact Htr.
+Qed.
+
+End Setup.
+
+(* ------------------------------------------------------------------ *)
+(* the boolean graph check of Base/Graph.v gives the facts used above   *)
+Lemma nodupb_NoDup : forall l, nodupb l = true -> NoDup l.
+Proof.
+  induction l as [|x l IH]; intro H; [constructor|]. cbn [nodupb] in H.
+  apply andb_true_iff in H. destruct H as [H1 H2]. constructor; [|apply IH; exact H2].
+  apply negb_true_iff in H1. apply mem_false. exact H1.
+Qed.
+
+Lemma wf_graphb_wfg2 : forall g, wf_graphb g = true -> wfg2 g.
+Proof.
+  intros g H. unfold wf_graphb in H.
+  apply andb_true_iff in H. destruct H as [H Hsym].
+  apply andb_true_iff in H. destruct H as [Hnd Hall].
+  rewrite forallb_forall in Hall.
+  assert (Hc : forall u, In u (gnodes g) ->
+     nodupb (gadj g u) = true /\ subsetb (gadj g u) (gnodes g) = true /\ mem u (gadj g u) = false /\
+     forallb (fun v => mem u (gpred g v)) (gadj g u) = true /\ nodupb (gpred g u) = true /\
+     subsetb (gpred g u) (gnodes g) = true /\ forallb (fun v => mem u (gadj g v)) (gpred g u) = true).
+  { intros u Hu. specialize (Hall u Hu). repeat (apply andb_true_iff in Hall; destruct Hall as [Hall ?]).
+    repeat split; try assumption. apply negb_true_iff. assumption. }
+  constructor.
+  - apply nodupb_NoDup. exact Hnd.
+  - intros u Hu. apply nodupb_NoDup. apply (Hc u Hu).
+  - intros u Hu. apply nodupb_NoDup. apply (Hc u Hu).
+  - intros u Hu. apply mem_false. apply (Hc u Hu).
+  - intros u v Hu Hv. destruct (Hc u Hu) as [_ [Hs _]]. unfold subsetb in Hs.
+    rewrite forallb_forall in Hs. apply mem_In. apply Hs. exact Hv.
+  - intros u v Hu Hv. destruct (Hc u Hu) as [_ [_ [_ [_ [_ [Hs _]]]]]]. unfold subsetb in Hs.
+    rewrite forallb_forall in Hs. apply mem_In. apply Hs. exact Hv.
+  - intros u v Hu Hv. split; intro Hin.
+    + destruct (Hc v Hv) as [_ [_ [_ [_ [_ [_ Hp]]]]]]. rewrite forallb_forall in Hp.
+      apply mem_In. apply Hp. exact Hin.
+    + destruct (Hc u Hu) as [_ [_ [_ [Hp _]]]]. rewrite forallb_forall in Hp.
+      apply mem_In. apply Hp. exact Hin.
+  - intros Hd u v Hu Hv. rewrite Hd in Hsym. cbn [orb] in Hsym. rewrite forallb_forall in Hsym.
+    specialize (Hsym u Hu). rewrite forallb_forall in Hsym. specialize (Hsym v Hv).
+    apply andb_true_iff in Hsym. destruct Hsym as [Hm _]. apply mem_In. exact Hm.
+Qed.
+
+(* ------------------------------------------------------------------ *)
+(* non-vacuity: an SIS-like specification with a node weight label and an edge rate
+   function on the undirected path 0 - 1 - 2 meets every hypothesis above, and a scripted
+   run of it performs an induced and a spontaneous event *)
+Definition ex_adj (u : node) : list node :=
+  match u with 0%N => [1%N] | 1%N => [0%N; 2%N] | 2%N => [1%N] | _ => [] end.
+Definition ex_g : graph :=
+  mkGraph [0%N; 1%N; 2%N] ex_adj ex_adj false (fun _ _ => 1) (fun _ => 1) false false.
+Definition ex_sp : list trans :=
+  [mkTr [1%N] [0%N] 1 (WLabel [([0%N], 1); ([1%N], 2); ([2%N], 1 # 2)])].
+Definition ex_in : list trans := [mkTr [1%N; 0%N] [1%N; 1%N] 2 (WFun (fun _ => 3 # 2))].
+Definition ex_ic (u : node) : N := match u with 0%N => 1%N | _ => 0%N end.
+Definition ex_draws : list Q := [1 # 4; 1 # 2; 0; 1 # 1024; 1 # 4; 1 # 10; 1; 1 # 1024; 10].
+
+Definition C03_example_statement : Prop :=
+  wf_graphb ex_g = true /\ wfg2 ex_g /\
+  Forall (sp_tr_ok ex_g) ex_sp /\ Forall (in_tr_ok ex_g) ex_in /\
+  (exists out tr, run_simple ex_g true ex_sp ex_in ex_ic [0%N; 1%N] 0 (Some 5) true 10 ex_draws = (Ok out, tr) /\
+     map snd (so_rows out) = [[2; 1]; [1; 2]; [2; 1]]%Z /\
+     option_map (fun f => map (fun e => (snd (fst e), snd e)) (fd_trans f)) (so_full out) = Some [(Some 0%N, 1%N)]) /\
+  (exists sp inn, SInv ex_g (mkS ex_ic sp inn [(0, map (count_status ex_g ex_ic) [0%N; 1%N])] [] []) /\
+     map sl_tr sp = ex_sp /\ map sl_tr inn = ex_in).
+
+Lemma C03_example_proof : C03_example_statement.
+Proof.
+  assert (Hwf : wf_graphb ex_g = true) by (vm_compute; reflexivity).
+  pose proof (wf_graphb_wfg2 ex_g Hwf) as Hg.
+  assert (Hsp : Forall (sp_tr_ok ex_g) ex_sp).
+  { constructor; [|constructor]. unfold sp_tr_ok. cbn [tr_w ex_sp].
+    intros u [E|[E|[E|[]]]]; subst u; eexists; (split; [reflexivity|]); unfold Qle; cbn; lia. }
+  assert (Hin : Forall (in_tr_ok ex_g) ex_in).
+  { constructor; [|constructor]. unfold in_tr_ok. split; [reflexivity|]. cbn [tr_w ex_in].
+    intros u v _ _. unfold Qle; cbn; lia. }
+  split; [exact Hwf|]. split; [exact Hg|]. split; [exact Hsp|]. split; [exact Hin|]. split.
+  - eexists. eexists. split; [vm_compute; reflexivity|]. split; reflexivity.
+  - destruct (simple_setup_inv ex_g Hg true ex_sp ex_in ex_ic [0%N; 1%N] 0 (Some 5) true 10%nat Hsp Hin)
+      as [sp [inn [_ [HI [_ [H1 [H2 _]]]]]]].
+    exists sp, inn. split; [exact HI|]. split; [rewrite H1|rewrite H2]; reflexivity.
+Qed.
